@@ -7,6 +7,7 @@ pub fn ty_str(t: &Ty, cat: &Catalogue) -> String {
     match t {
         Ty::Sc(s) => s.rust().to_string(),
         Ty::Json => "::serde_json::Value".to_string(),
+        Ty::Phantom => "::std::marker::PhantomData<u8>".to_string(),
         Ty::P(t) => format!("P<{}>", ty_str(t, cat)),
         Ty::Opt(t) => format!("Option<{}>", ty_str(t, cat)),
         Ty::Bx(t) => format!("Box<{}>", ty_str(t, cat)),
@@ -22,7 +23,10 @@ pub fn ty_str(t: &Ty, cat: &Catalogue) -> String {
             ty_str(val, cat)
         ),
         Ty::Cs(k) => format!("CS<{}>", k.rust()),
-        Ty::Item(i) => cat.item_name(*i),
+        Ty::Item(i) => match &cat.items[*i] {
+            Item::Struct(s) if s.generic => format!("{}<{}>", cat.item_name(*i), ty_str(&s.fields[0].ty, cat)),
+            _ => cat.item_name(*i),
+        },
     }
 }
 
@@ -58,8 +62,11 @@ pub fn default_expr(f: &FieldSpec) -> &'static str {
     }
 }
 
-fn field_attrs(f: &FieldSpec, concrete: bool, cat: &Catalogue, style: u8) -> String {
+fn field_attrs(f: &FieldSpec, concrete: bool, cat: &Catalogue, style: u8, type_param: bool) -> String {
     let mut a: Vec<String> = vec![];
+    if type_param {
+        a.push("needs_predicate".into());
+    }
     if let Some(r) = &f.rename {
         a.push(format!("rename = {:?}", r));
     }
@@ -83,12 +90,27 @@ fn field_attrs(f: &FieldSpec, concrete: bool, cat: &Catalogue, style: u8) -> Str
         a.push("map = map_bump".into());
     }
     if f.missing_fn {
-        a.push(format!("missing_field_error = {}", if concrete { "custom_missing_a" } else { "custom_missing" }));
+        a.push(format!(
+            "missing_field_error = {}",
+            if f.missing_foreign {
+                "custom_missing_f"
+            } else if concrete {
+                "custom_missing_a"
+            } else {
+                "custom_missing"
+            }
+        ));
     }
     if f.err_b {
         a.push("error = RecB".into());
     }
-    render_attrs(a, style, "    ")
+    let deserr = render_attrs(a, style, "    ");
+    match &f.serde_rename {
+        None => deserr,
+        // the helper attribute goes before or after the deserr ones, depending on the style
+        Some(r) if style % 2 == 0 => format!("    #[serde(rename = {r:?})]\n{deserr}"),
+        Some(r) => format!("{deserr}    #[serde(rename = {r:?})]\n"),
+    }
 }
 
 fn decl_ty(f: &FieldSpec, cat: &Catalogue) -> String {
@@ -105,6 +127,8 @@ fn container_attrs(
     validate: bool,
     concrete: bool,
     tag: Option<&str>,
+    fields: &[&FieldSpec],
+    same_err: bool,
 ) -> Vec<String> {
     let mut a = vec![];
     if let Some(t) = tag {
@@ -120,9 +144,14 @@ fn container_attrs(
             "deny_unknown_fields = {}",
             if concrete { "custom_unknown_a" } else { "custom_unknown" }
         )),
+        Deny::CustomForeign => a.push("deny_unknown_fields = custom_unknown_f".into()),
+    }
+    if !concrete && (deny == Deny::CustomForeign || fields.iter().any(|f| f.missing_foreign)) {
+        // the foreign error of the custom functions must be mergeable into the error type
+        a.push("where_predicate = __Deserr_E: ::deserr::MergeWithError<ConvErr>".into());
     }
     if validate {
-        a.push("validate = validate_sum -> ValErr".into());
+        a.push(validate_attr(concrete, same_err));
     }
     if concrete {
         a.push("error = RecA".into());
@@ -130,10 +159,19 @@ fn container_attrs(
     a
 }
 
-fn emit_fields(out: &mut String, fields: &[FieldSpec], concrete: bool, cat: &Catalogue, vis: &str, style: u8) {
-    for f in fields {
-        out.push_str(&field_attrs(f, concrete, cat, style));
-        let _ = writeln!(out, "    {vis}{}: {},", f.ident, decl_ty(f, cat));
+fn validate_attr(concrete: bool, same_err: bool) -> String {
+    match (same_err, concrete) {
+        (false, _) => "validate = validate_sum -> ValErr".into(),
+        (true, false) => "validate = validate_sum_same -> __Deserr_E".into(),
+        (true, true) => "validate = validate_sum_same -> RecA".into(),
+    }
+}
+
+fn emit_fields(out: &mut String, fields: &[FieldSpec], concrete: bool, cat: &Catalogue, vis: &str, style: u8, generic: bool) {
+    for (n, f) in fields.iter().enumerate() {
+        let type_param = generic && n == 0;
+        out.push_str(&field_attrs(f, concrete, cat, style, type_param));
+        let _ = writeln!(out, "    {vis}{}: {},", f.ident, if type_param { "T".to_string() } else { decl_ty(f, cat) });
     }
 }
 
@@ -141,20 +179,31 @@ pub fn emit_item(out: &mut String, i: usize, cat: &Catalogue) {
     let name = cat.item_name(i);
     match &cat.items[i] {
         Item::Struct(s) => {
-            let attrs = container_attrs(s.rename_all, s.deny, s.validate, s.concrete, None);
+            let all: Vec<&FieldSpec> = s.fields.iter().collect();
+            let attrs = container_attrs(s.rename_all, s.deny, s.validate, s.concrete, None, &all, s.same_err);
             let _ = writeln!(out, "#[derive(Debug, Deserr)]");
             out.push_str(&render_attrs(attrs, s.style, ""));
-            let _ = writeln!(out, "pub struct {name} {{");
-            emit_fields(out, &s.fields, s.concrete, cat, "pub ", s.style);
+            if s.generic {
+                assert!(s.fields[0].conv == Conv::None && !s.fields[0].has_default() && !s.fields[0].skip && !s.fields[0].map);
+                let _ = writeln!(out, "pub struct {name}<T> {{");
+            } else {
+                let _ = writeln!(out, "pub struct {name} {{");
+            }
+            emit_fields(out, &s.fields, s.concrete, cat, "pub ", s.style, s.generic);
             let _ = writeln!(out, "}}");
-            let _ = writeln!(out, "impl Dump for {name} {{\n    fn dump(&self) -> Doc {{\n        Doc::Obj(vec![");
+            if s.generic {
+                let _ = writeln!(out, "impl<T: Dump> Dump for {name}<T> {{\n    fn dump(&self) -> Doc {{\n        Doc::Obj(vec![");
+            } else {
+                let _ = writeln!(out, "impl Dump for {name} {{\n    fn dump(&self) -> Doc {{\n        Doc::Obj(vec![");
+            }
             for f in &s.fields {
                 let _ = writeln!(out, "            ({:?}.to_string(), self.{}.dump()),", f.ident, f.ident);
             }
             let _ = writeln!(out, "        ])\n    }}\n}}");
         }
         Item::Enum(e) => {
-            let attrs = container_attrs(e.rename_all, e.deny, e.validate, e.concrete, e.tag.as_deref());
+            let all: Vec<&FieldSpec> = e.variants.iter().flat_map(|v| v.fields.iter().flatten()).collect();
+            let attrs = container_attrs(e.rename_all, e.deny, e.validate, e.concrete, e.tag.as_deref(), &all, e.same_err);
             let unit_only = e.variants.iter().all(|v| v.fields.is_none());
             if unit_only {
                 let _ = writeln!(out, "#[derive(Debug, Deserr, PartialEq, Eq, Hash, PartialOrd, Ord)]");
@@ -179,7 +228,7 @@ pub fn emit_item(out: &mut String, i: usize, cat: &Catalogue) {
                     Some(fs) => {
                         let _ = writeln!(out, "    {} {{", v.ident);
                         let mut inner = String::new();
-                        emit_fields(&mut inner, fs, e.concrete, cat, "", e.style);
+                        emit_fields(&mut inner, fs, e.concrete, cat, "", e.style, false);
                         for l in inner.lines() {
                             let _ = writeln!(out, "    {l}");
                         }
@@ -220,13 +269,18 @@ pub fn emit_item(out: &mut String, i: usize, cat: &Catalogue) {
             let amp = if c.by_ref { "&" } else { "" };
             let fname = format!("c{i}_fn");
             let mut attrs = vec![];
+            let same_ty = if c.concrete { "RecA" } else { "__Deserr_E" };
             if c.fallible {
-                attrs.push(format!("try_from({amp}{via}) = {fname} -> ConvErr"));
+                if c.same_err {
+                    attrs.push(format!("try_from({amp}{via}) = {fname} -> {same_ty}"));
+                } else {
+                    attrs.push(format!("try_from({amp}{via}) = {fname} -> ConvErr"));
+                }
             } else {
                 attrs.push(format!("from({amp}{via}) = {fname}"));
             }
             if c.validate {
-                attrs.push("validate = validate_sum -> ValErr".into());
+                attrs.push(validate_attr(c.concrete, c.same_err));
             }
             if c.concrete {
                 attrs.push("error = RecA".into());
@@ -234,7 +288,13 @@ pub fn emit_item(out: &mut String, i: usize, cat: &Catalogue) {
             let _ = writeln!(out, "#[derive(Debug, Deserr)]");
             let _ = writeln!(out, "#[deserr({})]", attrs.join(", "));
             let _ = writeln!(out, "pub struct {name} {{\n    pub d: Doc,\n}}");
-            if c.fallible {
+            if c.fallible && c.same_err {
+                let _ = writeln!(
+                    out,
+                    "fn {fname}<E: ::deserr::DeserializeError>(x: {amp}{via}) -> ::std::result::Result<{name}, E> {{\n    conv_container_try_same::<E>({i}, {}, &x.dump()).map(|d| {name} {{ d }})\n}}",
+                    c.by_ref
+                );
+            } else if c.fallible {
                 let _ = writeln!(
                     out,
                     "fn {fname}(x: {amp}{via}) -> ::std::result::Result<{name}, ConvErr> {{\n    conv_container_try({i}, {}, &x.dump()).map(|d| {name} {{ d }})\n}}",
@@ -260,7 +320,7 @@ pub fn emit_item(out: &mut String, i: usize, cat: &Catalogue) {
 pub fn reachable_items(cat: &Catalogue, roots: &[usize]) -> Vec<usize> {
     fn go(cat: &Catalogue, t: &Ty, seen: &mut std::collections::BTreeSet<usize>) {
         match t {
-            Ty::Sc(_) | Ty::Json | Ty::Cs(_) => {}
+            Ty::Sc(_) | Ty::Json | Ty::Phantom | Ty::Cs(_) => {}
             Ty::P(t) | Ty::Opt(t) | Ty::Bx(t) | Ty::Vec(t) | Ty::HSet(t) | Ty::BSet(t) | Ty::Arr(t, _) => go(cat, t, seen),
             Ty::Tup(ts) => ts.iter().for_each(|t| go(cat, t, seen)),
             Ty::Map { val, .. } => go(cat, val, seen),
